@@ -75,7 +75,16 @@ def drive(tier):
 
     from vlib import seqx
 
-    return seqx.drive(sys.modules[__name__], tier, START, depth_limit=depth_limit(tier), max_states=None)
+    results = seqx.drive(sys.modules[__name__], tier, START, depth_limit=depth_limit(tier), max_states=None)
+    if any("harness_error" in r for r in results):
+        return results
+    # the states of the recorded known findings that lie deeper than this tier's depth are examined in every run
+    from vlib import core
+
+    extra = seqx.known_witness_states(sys.modules[__name__], min_depth=depth_limit(tier))
+    if extra:
+        results.extend(core.pmap(__name__, [("witness", extra)], tier))
+    return results
 
 
 def run_shard(shard, tier):
